@@ -213,7 +213,9 @@ func runSysFault(x *X) {
 			b.ln.SetMode(refuse, hang)
 		}
 	}
-	ok := env.drive(driveOpts{fragment: true, delays: true, maxVirtual: 3 * time.Minute,
+	// long enough for every exchange of the sequence to run into its bound one after the other
+	budget := 3*time.Minute + time.Duration(len(all))*time.Duration(to.Read+to.Write+to.BackendDial+to.BackendRead+to.Handler+1)*time.Second
+	ok := env.drive(driveOpts{fragment: true, delays: true, maxVirtual: budget,
 		extra: func() []string { setMode(); return nil }})
 	setMode()
 	for _, p := range stdLogWatcher.take() {
@@ -243,6 +245,10 @@ func runSysFault(x *X) {
 		}
 		if !ex.started {
 			continue
+		}
+		if !ex.done && x.Now()-ex.startedAt <= bound {
+			x.Probe("driver-budget-ended-before-bound")
+			continue // the world was not run long enough to judge this one
 		}
 		if !ex.done {
 			x.Violate("C03", "C03/unbounded-request{"+faults[i]+"}", "exchange %d (%s, fault %s) had not ended %v after it started (read+write+backend_dial+backend_read+handler+1s = %v)", ex.id, ex.method, faults[i], x.Now()-ex.startedAt, bound)
